@@ -12,9 +12,9 @@
     * `emissions_are_entries` — pruning (SkipDir) is sound, what the callback adds is the entry set;
     * `walk_refines_spec_partial` (and `…_toplevel`) — the model returns exactly the specified page
       when: delimiter "" or "/", sibling names order-compatible, no explicit directory objects, no
-      phantom directories, no file named like a skipped directory, the prefix does not reach below a
-      skipped directory, and (delimiter "/") the marker is clear of the common prefixes
-      (`Spec.List.markerClear`);
+      phantom directories, and (delimiter "/") the marker is clear of the common prefixes
+      (`Spec.List.markerClear`); files named like a skipped directory and prefixes reaching below
+      a skipped directory are covered (findings repaired by C07-fix-1/2: regression examples below);
     * `server_issued_marker_clear`, `walk_pages_eq_spec`, `walk_paginate_complete` — markers the
       server issues itself are clear, so the model's own pagination terminates and yields every
       entry exactly once;
@@ -152,13 +152,34 @@ theorem mc_of_markerClear (c : Cfg) (K : List Bytes) (h : markerClear K c.pfx c.
 root is "." -/
 def topLevelPrefix (P : Bytes) : Bool := rootOf P == none || rootOf P == some [46]
 
+theorem insideSkip_dot (skip : List Bytes) (h : [46] ∉ skip) : insideSkip skip [46] = false := by
+  unfold insideSkip
+  rw [List.any_eq_false]
+  intro s hs
+  have h1 : ([46] == s) = false := by
+    have : ([46] : Bytes) ≠ s := fun e => h (e ▸ hs)
+    simpa using this
+  have h2 : hasPrefix [46] (s ++ [slash]) = false := by
+    cases hh : hasPrefix [46] (s ++ [slash]) with
+    | false => rfl
+    | true =>
+      exfalso
+      have hp := (hasPrefix_iff _ _).1 hh
+      have hl := hp.length_le
+      rw [List.length_append] at hl
+      simp only [List.length_singleton, List.length_cons, List.length_nil] at hl
+      have : s = [] := List.eq_nil_of_length_eq_zero (by omega)
+      subst this
+      simp [slash] at hp
+  simp [h1, h2]
+
 /-- **walk_refines_spec_partial, prefixes resolved at the top level** -/
 theorem walk_refines_spec_partial_toplevel (top : List Tree) (g : GetObj) (skip : List Bytes)
     (P D M : Bytes) (N : Nat)
     (hwf : wfList top = true) (hoc : ocList top = true) (hD : D = [] ∨ D = [slash])
     (hnd : ∀ p : Bytes, g (p ++ [slash]) = none)
     (hpop : populatedList g skip [] top = true)
-    (hsf : noSkipFileList skip top = true)
+    (hdot : [46] ∉ skip)
     (hmc : markerClear (keysList g skip [] top) P D M = true)
     (hP : topLevelPrefix P = true) : Refines top g skip P D M N := by
   unfold Refines
@@ -170,17 +191,18 @@ theorem walk_refines_spec_partial_toplevel (top : List Tree) (g : GetObj) (skip 
       unfold walk
       have : ¬ c.max = 0 := by show ¬ ((N : Int) = 0); omega
       rw [if_neg this]
+      have hdot' : insideSkip c.skip [46] = false := insideSkip_dot skip hdot
       unfold topLevelPrefix at hP
       cases hr : rootOf c.pfx with
-      | none => rfl
+      | none => simp [hdot']
       | some r =>
         have hr' : rootOf P = some r := hr
         rw [hr'] at hP
         simp at hP
         subst hP
-        simp
+        simp [hdot']
     show walk c top = _
-    rw [hwalk, walkList_eq_run c top [] (init c) rfl hsf]
+    rw [hwalk, walkList_eq_run c top [] (init c) rfl]
     exact finish_of_good c N (by omega) rfl (visList c [] top) _ (eventsList [] top)
       (good_list c ⟨hD, hnd⟩ top [] hwf hpop
         (fun _ hp => (List.prefix_nil.1 hp).symm)
@@ -218,12 +240,6 @@ theorem result_empty (g : GetObj) (K : List Bytes) (P D M : Bytes) (N : Nat)
   · simp [hN, Page.toResult, Result.empty, objsOf, cpsOf]
   · simp [hN, Page.toResult, Result.empty, objsOf, cpsOf]
 
-/-- no path element of the root, except possibly the last, is a skipped (bookkeeping) name -/
-def rootClean (skip : List Bytes) (P : Bytes) : Bool :=
-  match rootOf P with
-  | none => true
-  | some r => r == [46] || (splitOn slash r).dropLast.all (fun e => !skip.contains e)
-
 /-- **walk_refines_spec_partial** — for every well-formed tree, size/ETag callback, skip list,
 prefix, marker and page size N ≥ 0, the model of backend.Walk returns exactly the page
 `Spec.List.list` defines (objects in order with the callback's sizes and ETags, common prefixes in
@@ -232,20 +248,20 @@ order, truncation flag, next marker), provided
   * `hoc`  no directory has a sibling whose name extends the directory's name by a byte < '/',
   * `hnd`  no directory is an explicit directory object,
   * `hpop` every directory (outside skipped ones) holds at least one key,
-  * `hsf`  no FILE is named like a skipped directory,
-  * `hroot` the prefix does not reach below a skipped directory,
+  * `hdot` "." is not in the skip list (a sanity condition on the configuration),
   * `hmc`  (delimiter "/") the marker is clear of the common prefixes.
-Each hypothesis is necessary: see Vgw/Open/C07.lean. -/
+Files named like a skipped directory are ordinary keys, a prefix reaching below a skipped directory
+selects nothing (both were findings before the repairs C07-fix-1/2). The hypotheses hD … hpop, hmc
+are each necessary: see Vgw/Open/C07.lean. -/
 theorem walk_refines_spec_partial (top : List Tree) (g : GetObj) (skip : List Bytes)
     (P D M : Bytes) (N : Nat)
     (hwf : wfList top = true) (hoc : ocList top = true) (hD : D = [] ∨ D = [slash])
     (hnd : ∀ p : Bytes, g (p ++ [slash]) = none)
     (hpop : populatedList g skip [] top = true)
-    (hsf : noSkipFileList skip top = true)
-    (hroot : rootClean skip P = true)
+    (hdot : [46] ∉ skip)
     (hmc : markerClear (keysList g skip [] top) P D M = true) : Refines top g skip P D M N := by
   by_cases htop : topLevelPrefix P = true
-  · exact walk_refines_spec_partial_toplevel top g skip P D M N hwf hoc hD hnd hpop hsf hmc htop
+  · exact walk_refines_spec_partial_toplevel top g skip P D M N hwf hoc hD hnd hpop hdot hmc htop
   · unfold Refines
     by_cases hN : N = 0
     · subst hN
@@ -262,14 +278,41 @@ theorem walk_refines_spec_partial (top : List Tree) (g : GetObj) (skip : List By
       have helems_ne : splitOn slash r ≠ [] := splitOn_ne_nil slash r
       have helems_ns : ∀ e ∈ splitOn slash r, slash ∉ e := splitOn_no_sep slash r
       have hjoin : joinWith slash (splitOn slash r) = r := join_splitOn slash r
-      have hclean : ∀ e ∈ (splitOn slash r).dropLast, e ∉ skip := by
-        unfold rootClean at hroot
-        rw [hr] at hroot
-        have h46 : (r == [46]) = false := by simpa using hr46
-        simp only [h46, Bool.false_or, List.all_eq_true, Bool.not_eq_true'] at hroot
-        intro e he
-        have := hroot e he
-        simpa using this
+      have hnz : ¬ ((N : Int) = 0) := by omega
+      have hr' : rootOf c.pfx = some r := hr
+      -- a root inside a skipped directory: nothing is listed, and nothing there is a key
+      by_cases hin : insideSkip skip r = true
+      · have hwalkE : walk c top = Result.empty := by
+          unfold walk
+          rw [if_neg (show ¬ c.max = 0 from hnz), hr']
+          simp only [Option.getD_some]
+          rw [if_pos (show insideSkip c.skip r = true from hin)]
+        show walk c top = _
+        rw [hwalkE]
+        symm
+        apply result_empty
+        intro k hk hp
+        unfold insideSkip at hin
+        rw [List.any_eq_true] at hin
+        obtain ⟨s, hs, hcond⟩ := hin
+        apply keys_not_under_skip g skip top hwf k s hk hs
+        have hrk : (r ++ [slash]) <+: k := hrs.2.trans hp
+        simp only [Bool.or_eq_true, beq_iff_eq] at hcond
+        rcases hcond with e | e
+        · rw [← e]; exact hrk
+        · exact ((hasPrefix_iff _ _).1 e).trans ((List.prefix_append r [slash]).trans hrk)
+      have hin' : insideSkip skip r = false := by
+        cases h : insideSkip skip r with
+        | true => exact absurd h hin
+        | false => rfl
+      have hclean : ∀ s ∈ skip, ¬ (s ++ [slash]) <+: ([] ++ joinWith slash (splitOn slash r)) := by
+        intro s hs hp
+        rw [hjoin, List.nil_append] at hp
+        unfold insideSkip at hin'
+        rw [List.any_eq_false] at hin'
+        have := hin' s hs
+        rw [(hasPrefix_iff _ _).2 hp] at this
+        simp at this
       -- every key carrying the prefix lies in the node `descend` finds
       have hKF : ∀ k ∈ keysList g skip [] top, P <+: k →
           ∃ base t, descend (splitOn slash r) [] top = some (base, t) ∧ k ∈ keysNode g skip base t ∧
@@ -284,10 +327,9 @@ theorem walk_refines_spec_partial (top : List Tree) (g : GetObj) (skip : List By
           | none => Result.empty
           | some (base, t) => finish (walkNode c base (init c) t).1 := by
         unfold walk
-        have : ¬ c.max = 0 := by show ¬ ((N : Int) = 0); omega
-        rw [if_neg this]
-        have hr' : rootOf c.pfx = some r := hr
-        rw [hr']
+        rw [if_neg (show ¬ c.max = 0 from hnz), hr']
+        simp only [Option.getD_some]
+        rw [if_neg (by rw [show insideSkip c.skip r = false from hin']; simp)]
         simp only [hr46, if_false]
         rfl
       show walk c top = _
@@ -306,7 +348,7 @@ theorem walk_refines_spec_partial (top : List Tree) (g : GetObj) (skip : List By
         | some bt =>
           obtain ⟨base, t⟩ := bt
           simp only
-          have hlist : ListOK g skip (keysList g skip [] top) [] top := ⟨hwf, hoc, hpop, hsf, fun _ h => h⟩
+          have hlist : ListOK g skip (keysList g skip [] top) [] top := ⟨hwf, hoc, hpop, fun _ h => h⟩
           obtain ⟨hnode, hpath⟩ := descend_sound g skip _ _ [] top base t hd hclean hlist
           rw [hjoin] at hpath
           have hbase : BaseOK c base := by
@@ -319,7 +361,7 @@ theorem walk_refines_spec_partial (top : List Tree) (g : GetObj) (skip : List By
             have : c.pfx = P := rfl
             rw [this] at l1
             omega
-          rw [walkNode_eq_run c t base (init c) rfl hnode.nsf]
+          rw [walkNode_eq_run c t base (init c) rfl]
           rw [finish_of_good c N (by omega) rfl (visNode c base t) _ (eventsNode base t)
             (good_node c ⟨hD, hnd⟩ t base hnode.wf hnode.pop hbase
               (fun k hk => mc_of_markerClear c _ hmc k (hnode.keys k hk)))
@@ -408,15 +450,14 @@ theorem walk_pages_eq_spec (top : List Tree) (g : GetObj) (skip : List Bytes) (P
     (hwf : wfList top = true) (hoc : ocList top = true) (hD : D = [] ∨ D = [slash])
     (hnd : ∀ p : Bytes, g (p ++ [slash]) = none)
     (hpop : populatedList g skip [] top = true)
-    (hsf : noSkipFileList skip top = true)
-    (hroot : rootClean skip P = true) :
+    (hdot : [46] ∉ skip) :
     ∀ (fuel : Nat) (M : Bytes), markerClear (keysList g skip [] top) P D M = true →
       walkPages top g skip P D N fuel M =
         (paginate (keysList g skip [] top) P D N fuel M).map (Page.toResult g)
   | 0, _, _ => rfl
   | fuel + 1, M, hmc => by
     have href : Refines top g skip P D M N :=
-      walk_refines_spec_partial top g skip P D M N hwf hoc hD hnd hpop hsf hroot hmc
+      walk_refines_spec_partial top g skip P D M N hwf hoc hD hnd hpop hdot hmc
     unfold Refines result at href
     unfold walkPages paginate
     dsimp only
@@ -430,7 +471,7 @@ theorem walk_pages_eq_spec (top : List Tree) (g : GetObj) (skip : List Bytes) (P
       rw [hpg]
       simp only [Page.toResult, if_true, List.map_cons]
       congr 1
-      apply walk_pages_eq_spec top g skip P D N hN hwf hoc hD hnd hpop hsf hroot fuel
+      apply walk_pages_eq_spec top g skip P D N hN hwf hoc hD hnd hpop hdot fuel
       exact server_issued_marker_clear top g skip P D _ hwf hoc hD hnd
         (lastName_take_serverIssued _ P D M N hN (by omega))
     · have hpg : list (keysList g skip [] top) P D M N =
@@ -462,15 +503,14 @@ theorem walk_paginate_complete (top : List Tree) (g : GetObj) (skip : List Bytes
     (hwf : wfList top = true) (hoc : ocList top = true) (hD : D = [] ∨ D = [slash])
     (hnd : ∀ p : Bytes, g (p ++ [slash]) = none)
     (hpop : populatedList g skip [] top = true)
-    (hsf : noSkipFileList skip top = true)
-    (hroot : rootClean skip P = true)
+    (hdot : [46] ∉ skip)
     (hmc : markerClear (keysList g skip [] top) P D M = true)
     (fuel : Nat) (hfuel : (entries (keysList g skip [] top) P D M).length < fuel) :
     (walkPages top g skip P D N fuel M).flatMap (·.objects) = objsOf g (entries (keysList g skip [] top) P D M) ∧
     (walkPages top g skip P D N fuel M).flatMap (·.cps) = cpsOf (entries (keysList g skip [] top) P D M) ∧
     (∃ r, (walkPages top g skip P D N fuel M).getLast? = some r ∧ r.truncated = false) ∧
     (walkPages top g skip P D N fuel M).length ≤ (entries (keysList g skip [] top) P D M).length + 1 := by
-  rw [walk_pages_eq_spec top g skip P D N hN hwf hoc hD hnd hpop hsf hroot fuel M hmc]
+  rw [walk_pages_eq_spec top g skip P D N hN hwf hoc hD hnd hpop hdot fuel M hmc]
   obtain ⟨h1, ⟨pg, h2, h3⟩, h4⟩ :=
     paginate_complete (keysList g skip [] top) P D (keysList_ne_nil g skip top hwf) N hN fuel M hfuel
   refine ⟨?_, ?_, ?_, ?_⟩
@@ -563,23 +603,23 @@ def sampleTree : List Tree :=
 /-- prefix `a/`, delimiter `/`, first page of size 1 -/
 example : Refines sampleTree fileOnly [[46, 115]] [97, 47] [47] [] 1 :=
   walk_refines_spec_partial sampleTree fileOnly [[46, 115]] [97, 47] [47] [] 1 (by decide) (by decide)
-    (Or.inr rfl) fileOnly_noDirObj (by decide) (by decide) (by decide) (by decide)
+    (Or.inr rfl) fileOnly_noDirObj (by decide) (by decide) (by decide)
 example : walk ⟨[97, 47], [47], [], 1, fileOnly, [[46, 115]]⟩ sampleTree =
     ⟨[⟨[97, 47, 98], 3, [97, 47, 98]⟩], [], true, [97, 47, 98]⟩ := by decide
 /-- continuing from the returned marker `a/b` (a key: clear of every common prefix) -/
 example : Refines sampleTree fileOnly [[46, 115]] [97, 47] [47] [97, 47, 98] 1 :=
   walk_refines_spec_partial sampleTree fileOnly [[46, 115]] [97, 47] [47] [97, 47, 98] 1 (by decide) (by decide)
-    (Or.inr rfl) fileOnly_noDirObj (by decide) (by decide) (by decide) (by decide)
+    (Or.inr rfl) fileOnly_noDirObj (by decide) (by decide) (by decide)
 /-- no prefix, delimiter `/`, marker = the common prefix `a/` an earlier page returned -/
 example : Refines sampleTree fileOnly [[46, 115]] [] [47] [97, 47] 5 :=
   walk_refines_spec_partial sampleTree fileOnly [[46, 115]] [] [47] [97, 47] 5 (by decide) (by decide)
-    (Or.inr rfl) fileOnly_noDirObj (by decide) (by decide) (by decide) (by decide)
+    (Or.inr rfl) fileOnly_noDirObj (by decide) (by decide) (by decide)
 example : walk ⟨[], [47], [97, 47], 5, fileOnly, [[46, 115]]⟩ sampleTree =
     ⟨[⟨[97, 98], 2, [97, 98]⟩, ⟨[98], 1, [98]⟩], [], false, []⟩ := by decide
 /-- no delimiter, arbitrary marker `a/bb` (not a key) -/
 example : Refines sampleTree fileOnly [[46, 115]] [] [] [97, 47, 98, 98] 2 :=
   walk_refines_spec_partial sampleTree fileOnly [[46, 115]] [] [] [97, 47, 98, 98] 2 (by decide) (by decide)
-    (Or.inl rfl) fileOnly_noDirObj (by decide) (by decide) (by decide) (by decide)
+    (Or.inl rfl) fileOnly_noDirObj (by decide) (by decide) (by decide)
 example : walk ⟨[], [], [97, 47, 98, 98], 2, fileOnly, [[46, 115]]⟩ sampleTree =
     ⟨[⟨[97, 47, 99], 3, [97, 47, 99]⟩, ⟨[97, 98], 2, [97, 98]⟩], [], true, [97, 98]⟩ := by decide
 example : (eventsList [] sampleTree).Pairwise (fun a b => blt a b = true) :=
@@ -590,12 +630,46 @@ example : (walkPages sampleTree fileOnly [[46, 115]] [] [47] 1 5 []).map (fun r 
 example : (walkPages sampleTree fileOnly [[46, 115]] [] [47] 1 5 []).flatMap (·.objects) =
     objsOf fileOnly (entries (keysList fileOnly [[46, 115]] [] sampleTree) [] [47] []) :=
   (walk_paginate_complete sampleTree fileOnly [[46, 115]] [] [47] [] 1 (by decide) (by decide) (by decide)
-    (Or.inr rfl) fileOnly_noDirObj (by decide) (by decide) (by decide) (by decide) 5 (by decide)).1
+    (Or.inr rfl) fileOnly_noDirObj (by decide) (by decide) (by decide) 5 (by decide)).1
 example : serverIssued (keysList fileOnly [[46, 115]] [] sampleTree) [] [47] [97, 47] = true := by decide
 /-- spec level: three keys, page size 1, delimiter `-` (= 45): pages [a-], [b] -/
 example : (paginate [[97, 45, 98], [97, 45, 99], [98]] [] [45] 1 4 []).map (·.items) =
     [[.cp [97, 45]], [.obj [98]]] := by decide
 example : [] ∉ [[97, 45, 98], [97, 45, 99], ([98] : Bytes)] := by decide
 example : topLevelPrefix [97] = true ∧ topLevelPrefix [97, 47] = false := by decide
+
+/-! ### regression examples: former findings, repaired in backend/walk.go (C07-fix-1/2/3)
+
+Bytes: m=109 x=120 y=121 z=122, '0'=48 plays the role of `.sgwtmp`. -/
+
+/-- skip list [`0`], keys `x/0`, `x/z`: a FILE named like the skipped directory is an ordinary key and
+does not end the walk of its directory (was `walk:skip-name-below-top-level`) -/
+def tSkipFile : List Tree := [.dir [120] [.file [48], .file [122]]]
+example : Refines tSkipFile fileOnly [[48]] [] [] [] 10 :=
+  walk_refines_spec_partial tSkipFile fileOnly [[48]] [] [] [] 10 (by decide) (by decide)
+    (Or.inl rfl) fileOnly_noDirObj (by decide) (by decide) (by decide)
+example : walk ⟨[], [], [], 10, fileOnly, [[48]]⟩ tSkipFile =
+    ⟨[⟨[120, 47, 48], 3, [120, 47, 48]⟩, ⟨[120, 47, 122], 3, [120, 47, 122]⟩], [], false, []⟩ := by decide
+/-- a DIRECTORY named `0` below the top level is not internal either: `x/0/y` is listed -/
+example : walk ⟨[], [], [], 10, fileOnly, [[48]]⟩ [.dir [120] [.dir [48] [.file [121]]]] =
+    ⟨[⟨[120, 47, 48, 47, 121], 5, [120, 47, 48, 47, 121]⟩], [], false, []⟩ := by decide
+
+/-- skip list [`0`], internal path `0/m/x`, key `y`, prefix `0/m/`: nothing is listed (was
+`walk:prefix-below-skipdir`) -/
+def tBelow : List Tree := [.dir [48] [.dir [109] [.file [120]]], .file [121]]
+example : Refines tBelow fileOnly [[48]] [48, 47, 109, 47] [] [] 10 :=
+  walk_refines_spec_partial tBelow fileOnly [[48]] [48, 47, 109, 47] [] [] 10 (by decide) (by decide)
+    (Or.inl rfl) fileOnly_noDirObj (by decide) (by decide) (by decide)
+example : walk ⟨[48, 47, 109, 47], [], [], 10, fileOnly, [[48]]⟩ tBelow = Result.empty ∧
+    keysList fileOnly [[48]] [] tBelow = [[121]] ∧
+    walk ⟨[48, 47], [], [], 10, fileOnly, [[48]]⟩ tBelow = Result.empty ∧
+    walk ⟨[], [], [], 10, fileOnly, [[48]]⟩ tBelow = ⟨[⟨[121], 1, [121]⟩], [], false, []⟩ := by decide
+
+/-- prefix `x//` (root `x/` is not a valid path): the empty listing (was `walk:invalid-root-prefix`
+end to end: os.DirFS answers fs.ErrInvalid, now suppressed like fs.ErrNotExist) -/
+example : Refines tSkipFile fileOnly [[48]] [120, 47, 47] [] [] 10 :=
+  walk_refines_spec_partial tSkipFile fileOnly [[48]] [120, 47, 47] [] [] 10 (by decide) (by decide)
+    (Or.inl rfl) fileOnly_noDirObj (by decide) (by decide) (by decide)
+example : walk ⟨[120, 47, 47], [], [], 10, fileOnly, [[48]]⟩ tSkipFile = Result.empty := by decide
 
 end Vgw.Props.C07
